@@ -269,6 +269,8 @@ pub struct PeerMon {
     pub notified: HashMap<Addr, bool>,
     pub dead_reported: HashMap<Addr, u32>,
     pub last_wait_frame: Option<Frame>,
+    /// one entry per successful advance_frame: (current_frame(), frames_ahead(), the WaitRecommendation it queued)
+    pub gate_trace: Vec<(Frame, i32, Option<u32>)>,
     pub marked: Frame,
     pub panicked: bool,
     pub err_counts: HashMap<String, u64>,
@@ -295,6 +297,7 @@ impl PeerMon {
             notified: HashMap::new(),
             dead_reported: HashMap::new(),
             last_wait_frame: None,
+            gate_trace: Vec::new(),
             marked: 0,
             panicked: false,
             err_counts: HashMap::new(),
@@ -589,6 +592,17 @@ where
             scen, p.id, m.game.frame, m.ticks, m.stalls, m.game.n_saves, m.game.n_loads, m.game.n_advances, m.game.max_rollback,
             sorted(&m.err_counts), sorted_us(&m.max_sizes), m.panicked));
     }
+    if std::env::var_os("VERIF_GATE_TRACE").is_some() {
+        for p in &peers {
+            if !p.mon.gate_trace.is_empty() {
+                let t: Vec<String> = p.mon.gate_trace.iter().map(|(cf, fa, w)| match w {
+                    Some(k) => format!("{cf}:{fa}:{k}"),
+                    None => format!("{cf}:{fa}:-"),
+                }).collect();
+                out.lines.push(format!("STAT {} gate={} {}", scen, p.id, t.join(" ")));
+            }
+        }
+    }
     let n = net.borrow();
     out.lines.push(format!("STAT {} net sent={} dropped={}", scen, n.sent_total, n.dropped_total));
     obs
@@ -800,6 +814,11 @@ where
                     }
                     p.mon.ticks += 1;
                     advanced_ok = true;
+                    // the recommendation gate ran once at the end of this call (rollback mode: one
+                    // advance_frame_after_poll per call); its decision shows in the next drain of events
+                    if !nodrain && cfg.window > 0 {
+                        p.mon.gate_trace.push((s.current_frame(), s.frames_ahead(), None));
+                    }
                     p.mon.game.execute::<C>(reqs, cfg.window);
                     for (prop, class, what) in p.mon.game.hits.drain(..) {
                         out.hit(&prop, &class, &scen, &format!("peer {id}: {what}"));
@@ -1057,6 +1076,9 @@ where
                         }
                         (None, GgrsEvent::WaitRecommendation { skip_frames }) => {
                             p.mon.other_events.push(name.clone());
+                            if let Some(last) = p.mon.gate_trace.last_mut() {
+                                last.2 = Some(*skip_frames);
+                            }
                             let cf = s.current_frame();
                             if fa < 3 || *skip_frames as i32 != fa {
                                 out.hit("C15", "wait-recommendation-value", &scen, &format!("peer {id}: WaitRecommendation(skip {skip_frames}) while frames_ahead() = {fa}"));
